@@ -327,6 +327,8 @@ def apply_event(tt_mod, objs, ev):
         return [t]
     if op in ('Svd', 'Pinv'):
         return svd_pinv_event(tt_mod, A, ev, objs)
+    if op == 'Reject':
+        return reject_event(tt_mod, A, B, ev)
     if op == 'TT2QTT':
         return res_or_self(A.tt2qtt([list(x) for x in ev['rds']], [list(x) for x in ev['cds']]))
     if op == 'BuildCore':
@@ -401,6 +403,48 @@ def check_trunc_error(ev, t, bounds_from_event):
             disc += max(0, min(rows, cols) - t.ranks[b])
         if err2 > (theta ** 2) * nrm2 * disc * (1 + 1e-8) + tiny:
             raise Mismatch('error', 'error^2 %.6g exceeds (threshold*norm)^2*discarded = %.6g' % (err2, theta ** 2 * nrm2 * disc))
+
+
+class RejectNote(Exception):
+    """exception type of a documented error path differs (reported as a note, not as a violation)"""
+
+
+def reject_event(tt_mod, A, B, ev):
+    TT = tt_mod.TT
+    what = ev['what']
+    calls = {
+        'add_dims': lambda: A + B,
+        'add_type': lambda: A + 3.0,
+        'mul_type': lambda: A * 'x',
+        'matmul_dims': lambda: A @ B,
+        'matmul_type': lambda: A @ np.eye(2),
+        'element_len': lambda: A.element([0] * (2 * A.order + 1)),
+        'element_range': lambda: A.element([A.row_dims[0]] + [0] * (2 * A.order - 1)),
+        'element_type': lambda: A.element(tuple([0] * (2 * A.order))),
+        'tensordot_axes': lambda: A.tensordot(B, 1),
+        'tensordot_mode': lambda: A.tensordot(B, 1, mode='middle-middle'),
+        'tensordot_num': lambda: A.tensordot(B, max(A.order, B.order) + 1),
+        'norm_p': lambda: A.norm(p=3),
+        'ortho_threshold': lambda: A.ortho_left(threshold=-1.0),
+        'ortho_maxrank': lambda: A.ortho_right(max_rank=0),
+        'ortho_index_type': lambda: A.ortho_left(start_index='0'),
+        'full_open': lambda: A.full(),
+        'concat_ranks': lambda: A.concatenate(B),
+        'ranktd_ndim': lambda: A.rank_tensordot(np.ones(3)),
+        'ranktd_dims': lambda: A.rank_tensordot(np.ones((A.ranks[-1] + 1, 2))),
+        'ranktd_mode': lambda: A.rank_tensordot(np.ones((A.ranks[-1], 2)), mode='middle'),
+        'init_type': lambda: TT(3),
+        'init_ndim': lambda: TT([np.ones((1, 2, 1))]),
+        'init_ranks': lambda: TT([np.ones((1, 2, 1, 2)), np.ones((3, 2, 1, 1))]),
+        'init_odd': lambda: TT(np.ones((2, 2, 2))),
+    }
+    try:
+        calls[what]()
+    except Exception as e:
+        if type(e).__name__ != ev['exc']:
+            raise Mismatch('reject_note', 'inadmissible call %s raised %s, documented %s' % (what, type(e).__name__, ev['exc']))
+        return []
+    raise Mismatch('reject_note', 'inadmissible call %s did not raise (documented %s)' % (what, ev['exc']))
 
 
 def unfold(val, index):
